@@ -324,3 +324,15 @@ def run_one(ctx, prog, y, table, policy, seed, props, mode='plain'):
             ctx.violation('%s monitor %s: %s' % (p, kind, json.dumps(item, default=str)[:300]),
                           replay_obj(prog, y, table, policy, w, tr, {'seed': seed, 'hit': item}), sig)
     return tr
+
+
+def replay(ctx, rep, props):
+    """re-execute a replay file written by this stream"""
+    r = rep['replay']
+    if r.get('ops') is not None and r.get('mode', 'plain') != 'plain':
+        tr = run_fixed(ctx, r['program'], r['yaml'], r['oracle'], r['policy'], r['seed'], props, r['ops'],
+                       r.get('mode', 'ops'), r.get('evict', False))
+    else:
+        tr = run_one(ctx, r['program'], r['yaml'], r['oracle'], r['policy'], r['seed'], props, 'plain')
+    if tr is not None:
+        print('replay: final state %s, %d steps, %d errors' % (tr.final['wfs'][0]['state'], tr.steps, len(tr.errors)))
